@@ -113,8 +113,7 @@ def c16a(prog, rep):
                       "the per-file closure of exec_format performs std::fs calls other than open: %s" % oo2)
 
 
-def c16b(prog, rep):
-    R = "C16.b"
+def c16b(prog, rep, R="C16.b"):
     b = prog.inlined(FF + "format_files::{closure#0}", keep=ORCH_KEEP)
     if not rep.check(b is not None, R, "anchor:format_files-closure", "format_files closure not found"):
         return
@@ -501,6 +500,9 @@ def check_c17(prog, rep, tier, cfg):
     c17b(prog, rep)
     c17c(prog, rep)
     c17d(prog, rep)
+    # C17.e — "the bytes written equal BOM + encode(..)": what is left in the file is exactly what write_file produced — rewritten from
+    # offset 0 and cut to the returned length on every success path, whatever the lengths of the old and new text (shared with C16.b)
+    c16b(prog, rep, "C17.e")
 
 
 def c17a(prog, rep):
@@ -700,6 +702,66 @@ def check_c18(prog, rep, tier, cfg):
     c18c(prog, rep)
     c18d(prog, rep)
     c18e(prog, rep)
+    c18f(prog, rep)
+
+
+VEC_REMOVERS = ("retain", "retain_mut", "dedup", "dedup_by", "dedup_by_key", "remove", "swap_remove", "truncate", "drain", "pop", "clear", "split_off", "extract_if", "resize",
+                "resize_with", "pop_if")
+ITER_DROPPERS = ("filter", "filter_map", "skip", "skip_while", "take", "take_while", "step_by", "map_while", "dedup", "dedup_by", "dedup_by_key", "unique", "unique_by",
+                 "find", "find_map", "nth", "last", "next", "next_back", "flatten", "flat_map", "scan", "positions")
+
+
+def c18f(prog, rep):
+    """C18.f — every file named on the command line is in the batch: a file that is formatted when given alone must not disappear when
+    given together with others.  (1) No vector of paths in the orchestrator is ever shortened (retain / dedup / remove / truncate /
+    drain / pop / clear ..): the list handed to the parallel pipeline only grows.  (2) In expand_paths and its closures the only
+    iterator adaptor that can drop an element is the reviewed directory-walk filter, whose closure keeps an entry iff
+    formattable_file_path(entry) (or it is an error)."""
+    R = "C18.f"
+    n = 0
+    bad = []
+    for b in prog.bodies.values():
+        if b.crate != "pasfmt_orchestrator" and not b.npath.startswith("pasfmt_orchestrator"):
+            continue
+        for c in b.calls():
+            cal = c.callee or ""
+            cargs = " ".join(str(x) for x in c.t.get("callee_args", []))
+            if cal.startswith("alloc::vec::Vec") and "PathBuf" in cargs:
+                n += 1
+                if cal.split("::")[-1] in VEC_REMOVERS:
+                    bad.append("%s:%s %s on a vector of paths" % (short(b.npath), c.line, cal.split("::")[-1]))
+    rep.check(not bad, R, "path-lists-only-grow", "a list of files to format is shortened: a file that is formatted when given alone can be left out of a batch (e.g. two paths that a "
+              "normalisation considers equal): %s" % bad[:3], instance={"vec_of_paths_operations": n, "violating": bad[:5]})
+    rep.floor(R, "operations on vectors of paths in the orchestrator", n, 3)
+    ex = [b for b in prog.bodies.values() if b.npath.startswith(FF + "expand_paths")]
+    if not rep.check(bool(ex), R, "anchor:expand_paths", "expand_paths not found"):
+        return
+    drops = []
+    for b in ex:
+        for c in b.calls():
+            cal = c.callee or ""
+            if cal.startswith(("core::iter::", "itertools::", "rayon::iter::")) and cal.split("::")[-1] in ITER_DROPPERS:
+                drops.append((b, c))
+    m = 0
+    for b, c in drops:
+        nm = c.callee.split("::")[-1]
+        ok = False
+        if nm == "filter_map" and len(c.args) >= 2 and c.args[1]["k"] in ("copy", "move"):
+            clos = b.locals[c.args[1]["place"]["l"]].get("closure")
+            cb = prog.body(norm(clos)) if clos else None
+            if cb is not None:
+                # the closure returns None only under formattable_file_path(..) == false
+                ff = cb.calls_to("pasfmt_orchestrator::file_formatter::formattable_file_path")
+                nones = [bb for bb, i, s2 in cb.stmts() if s2["k"] == "assign" and s2["dst"]["l"] == 0 and not s2["dst"]["p"] and s2["rv"]["k"] == "aggregate" and s2["rv"].get("variant") == "None"]
+                from panic import dominating_conditions
+                ok = len(ff) == 1 and bool(nones)
+                for nb in nones:
+                    conds = dominating_conditions(cb, nb)
+                    ok &= any(cd[0] == "call" and cd[1].endswith("formattable_file_path") and cd[3] is False for cd in conds)
+        m += 1 if ok else 0
+        rep.check(ok, R, "dropping-adaptor:%s:%s" % (short(b.npath), nm), "expand_paths can drop an entry through `%s` for a reason other than `not a formattable file`" % nm, where=c.where(),
+                  instance={"adaptor": nm, "reason": "formattable_file_path(entry) == false"})
+    rep.floor(R, "reviewed dropping adaptors in expand_paths (the directory-walk filter)", m, 1)
 
 
 ALLOWED_STATICS = {
